@@ -201,8 +201,8 @@ def counterexample_behaviour(ce):
 def run_c34(ctx):
     pid, quick = "C34", ctx.quick
     # 1. design level: the repaired design satisfies the property; the code as found deviates only by the known witnesses
-    mc_bg = _Bg(lambda: ctx.tlc_must_hold(SPEC, "MC_Membership.cfg" if quick else "MC_Membership_t.cfg", module="MC_Membership",
-                                          timeout=900 if quick else 3000, workers=2 if quick else 4))
+    mc_bg = _Bg(lambda: ctx.tlc_must_hold(SPEC, "MC_Membership.cfg" if quick else "MC_Membership_t4.cfg", module="MC_Membership",
+                                          timeout=900 if quick else 3400, workers=2 if quick else 6, heap="8g" if quick else "12g"))
     #    the known finding's witness as a TLC counterexample (Defects = {StaleLeftEpoch, StickyLeftFilter})
     stale = ctx.tlc(SPEC, "MC_Membership_stale.cfg", module="MC_Membership", timeout=600, workers=2, expect_fail=True)
     if stale.violated != "NoBad":
@@ -212,6 +212,7 @@ def run_c34(ctx):
     if witness is None:
         raise vlib.Infra("could not parse the TLC counterexample of MC_Membership_stale")
     if not quick:
+        ctx.tlc_must_hold(SPEC, "MC_Membership_t.cfg", module="MC_Membership", timeout=3000, workers=4)
         ctx.tlc_must_hold(SPEC, "MC_Membership_real.cfg", module="MC_Membership", timeout=3000, workers=4)
         ctx.tlc_must_hold(SPEC, "MC_Membership_sticky.cfg", module="MC_Membership", timeout=3000, workers=4)
 
@@ -225,7 +226,7 @@ def run_c34(ctx):
     sim = vlib.parse_sim_behaviours(sim_r.out)
     if len(exh) < 5000 or len(sim) < 500:
         raise vlib.Infra("behaviour generation produced too little (%d exhaustive, %d random)" % (len(exh), len(sim)))
-    sim = sim[: (4000 if quick else 150000)]
+    sim = sim[: (4000 if quick else 40000)]
     special = [witness, SCENARIO_S]
     behaviours = special + exh + sim
     bfile = ctx.tmp("behaviours.ndjson")
@@ -239,25 +240,43 @@ def run_c34(ctx):
     stats = json.loads(p.stdout.strip().splitlines()[-1])
     nlines = stats["events"]
 
-    # 4. TLC judges
-    conf_bg = _Bg(lambda: ctx.tlc(SPEC, "Trace_Membership.cfg", dfs=True, files={"trace.ndjson": trace},
-                                  timeout=1800 if quick else 3000, heap="12g", expect_fail=True))
-    mon = ctx.tlc(SPEC, "Trace_MembershipMon.cfg", dfs=True, files={"trace.ndjson": trace}, timeout=1800 if quick else 3000, heap="12g")
-    if mon.depth != nlines + 1:
-        raise vlib.Infra("monitor did not consume the whole trace (%d of %d)" % (mon.depth - 1, nlines))
-    mism = [(int(a), b, c) for a, b, c in re.findall(r'<<"MISMATCH", (\d+), "(\w+)", "([^"]*)">>', mon.out)]
-    conf = conf_bg.get()
-    drift = None
-    if conf.error:
-        drift = "conformance spec could not evaluate the trace: " + conf.error[:300]
-    elif conf.violated:
-        drift = "invariant %s violated on the real trace at line %d" % (conf.violated, conf.depth)
-    elif conf.depth != nlines + 1:
-        drift = "trace rejected at line %d of %d" % (conf.depth, nlines)
+    # 4. TLC judges (the trace is cut at behaviour boundaries into parts of at most PART lines)
+    rows = vlib.read_ndjson(trace)
+    PART = 250000
+    parts, cur = [], []
+    for i, r in enumerate(rows):
+        if r["op"] == "New" and len(cur) >= PART:
+            parts.append(cur)
+            cur = []
+        cur.append(i)
+    parts.append(cur)
+    mism, drift, off = [], None, 0
+    for k, idx in enumerate(parts):
+        pfile = trace
+        if len(parts) > 1:
+            pfile = ctx.tmp("trace-part%d.ndjson" % k)
+            vlib.write_ndjson(pfile, [rows[i] for i in idx])
+        n = len(idx)
+        conf_bg = _Bg(lambda pf=pfile, kk=k: ctx.tlc(SPEC, "Trace_Membership.cfg", dfs=True, files={"trace.ndjson": pf},
+                                                     timeout=1800 if quick else 3000, heap="12g", expect_fail=True,
+                                                     name="Trace_Membership-%d" % kk))
+        mon = ctx.tlc(SPEC, "Trace_MembershipMon.cfg", dfs=True, files={"trace.ndjson": pfile}, timeout=1800 if quick else 3000,
+                      heap="12g", name="Trace_MembershipMon-%d" % k)
+        if mon.depth != n + 1:
+            raise vlib.Infra("monitor did not consume the whole trace part %d (%d of %d)" % (k, mon.depth - 1, n))
+        mism += [(int(a) + off, b, c) for a, b, c in re.findall(r'<<"MISMATCH", (\d+), "(\w+)", "([^"]*)">>', mon.out)]
+        conf = conf_bg.get()
+        if drift is None:
+            if conf.error:
+                drift = "conformance spec could not evaluate the trace: " + conf.error[:300]
+            elif conf.violated:
+                drift = "invariant %s violated on the real trace at line %d" % (conf.violated, conf.depth + off)
+            elif conf.depth != n + 1:
+                drift = "trace rejected at line %d of %d" % (conf.depth + off, nlines)
+        off += n
     mc = mc_bg.get()
     ctx.log("design: MC_Membership %d distinct states, once/self/settled hold for Defects={}" % mc.distinct)
 
-    rows = vlib.read_ndjson(trace)
     codes = collections.Counter(m[1] for m in mism)
     # known finding: identified by its witness class - NodeLeft(n) emitted on the completion of a node-left epoch that
     # began before n's departure (verdict code EARLY_STALE, the model's Defects branch StaleLeftEpoch)
